@@ -541,3 +541,155 @@ Proof.
     injection H as <- <-. apply IH in E. destruct E as (s1 & rs1 & rs2 & E1 & E2 & ->).
     rewrite E1. exists s1, (x :: rs1), rs2. auto.
 Qed.
+
+(* ------------------------------------------------------------------ consequences for reachable states *)
+Lemma seq_prefix a : forall b st n, seq st n = a ++ b -> a = seq st (length a).
+Proof.
+  induction a as [|x a IH]; intros b st n H; [reflexivity|].
+  destruct n as [|n]; [discriminate|]. cbn [seq app length] in *.
+  injection H as <- H. f_equal. eapply IH; exact H.
+Qed.
+
+(* delivered = a duplicate-free prefix of the acceptance order; one metric at a time *)
+Theorem reach_prefix cap handler evs s rs :
+  run true (init_q cap handler) evs = Some (s, rs) ->
+  map fst (q_delivered s) = seq 0 (length (q_delivered s)) /\
+  length (q_delivered s) <= q_accepted s /\
+  NoDup (map fst (q_delivered s)) /\
+  length (inflight (q_wk s)) <= 1 /\
+  NoDup (map fst (q_delivered s) ++ inflight (q_wk s) ++ somes (q_chan s)).
+Proof.
+  intro R. pose proof (I_commit s (inv_reach _ _ _ _ _ R)) as Hc.
+  pose proof (seq_prefix _ _ _ _ (eq_sym Hc)) as Hp. rewrite map_length in Hp.
+  split; [exact Hp|]. split.
+  - apply (f_equal (@length nat)) in Hc. rewrite !app_length, map_length, seq_length in Hc. lia.
+  - split; [rewrite Hp; apply seq_NoDup|]. split.
+    + destruct (q_wk s) as [|[m|]|m|]; cbn; lia.
+    + rewrite Hc. apply seq_NoDup.
+Qed.
+
+(* an accepted identity is always somewhere: delivered, in the worker's hands, or queued *)
+Theorem reach_not_lost cap handler evs s rs i :
+  run true (init_q cap handler) evs = Some (s, rs) -> i < q_accepted s ->
+  In i (map fst (q_delivered s) ++ inflight (q_wk s) ++ somes (q_chan s)).
+Proof.
+  intros R Hi. rewrite (I_commit s (inv_reach _ _ _ _ _ R)). apply in_seq. lia.
+Qed.
+
+(* while a handle is alive there is no stop marker anywhere and the worker has not exited *)
+Theorem reach_alive cap handler evs s rs :
+  run true (init_q cap handler) evs = Some (s, rs) -> q_handles s <> 0 ->
+  q_wk s <> WExited /\ q_wk s <> WHas None /\ nones (q_chan s) = 0 /\ q_pill_pending s = false.
+Proof.
+  intros R Hh. pose proof (I_markers s (inv_reach _ _ _ _ _ R)) as Hm. unfold markers in Hm.
+  destruct (q_handles s); [congruence|].
+  destruct (q_pill_pending s); [lia|].
+  destruct (q_wk s) as [|[m|]|m|]; cbn [wk_marker] in Hm; repeat split; try discriminate; lia.
+Qed.
+
+(* the worker exits only after the last drop and after everything accepted has been delivered *)
+Theorem reach_exited cap handler evs s rs :
+  run true (init_q cap handler) evs = Some (s, rs) -> q_wk s = WExited ->
+  q_handles s = 0 /\ q_chan s = [] /\ q_pill_pending s = false /\
+  map fst (q_delivered s) = seq 0 (q_accepted s).
+Proof.
+  intros R Ew. destruct (inv_reach _ _ _ _ _ R) as [Hc Hm _ Hst _ _ _ _ _ _ _].
+  unfold markers in Hm. rewrite Ew in *. cbn [wk_marker inflight] in *.
+  specialize (Hst eq_refl). rewrite Hst in *. cbn [somes nones app] in *. rewrite app_nil_r in Hc.
+  destruct (q_handles s); [|lia]. destruct (q_pill_pending s); [lia|]. auto.
+Qed.
+
+Theorem reach_bound cap handler evs s rs c :
+  run true (init_q cap handler) evs = Some (s, rs) -> cap = Some c ->
+  q_cap s = Some c /\ length (q_chan s) <= c.
+Proof.
+  intros R ->. destruct (run_cfg _ _ _ _ _ R) as [Ec _]. cbn in Ec.
+  split; [exact Ec|]. apply (I_bound s (inv_reach _ _ _ _ _ R)). exact Ec.
+Qed.
+
+(* the counters at every moment / at quiescent moments *)
+Theorem reach_counters cap handler evs s rs :
+  run true (init_q cap handler) evs = Some (s, rs) ->
+  q_accepted s = count_ok rs /\
+  q_submitted s + q_pending_inc s = count_ok rs /\
+  q_drained s = length (q_delivered s) + counted (q_wk s) /\
+  (q_pending_inc s = 0 -> q_submitted s = count_ok rs) /\
+  (q_pending_inc s = 0 -> (forall m, q_wk s <> WHas (Some m)) ->
+     q_drained s <= q_submitted s /\
+     queued_now s = q_submitted s - q_drained s /\
+     queued_now s = length (somes (q_chan s))).
+Proof.
+  intro R. destruct (run_accepted _ _ _ _ _ R) as [Ea _]. cbn in Ea.
+  destruct (inv_reach _ _ _ _ _ R) as [Hc _ _ _ _ Hsub Hd _ _ _ _].
+  split; [exact Ea|]. split; [lia|]. split; [exact Hd|]. split; [lia|].
+  intros Hp Hw.
+  apply (f_equal (@length nat)) in Hc. rewrite !app_length, map_length, seq_length in Hc.
+  assert (E : length (inflight (q_wk s)) = counted (q_wk s)).
+  { destruct (q_wk s) as [|[m|]|m|]; try reflexivity. exfalso. eapply Hw. reflexivity. }
+  assert (Hle : q_drained s <= q_submitted s) by lia.
+  split; [exact Hle|]. unfold queued_now.
+  destruct (q_drained s <? q_submitted s) eqn:El.
+  - split; [reflexivity | lia].
+  - apply Nat.ltb_ge in El. split; lia.
+Qed.
+
+(* the sampler: every value ever returned is at most [submitted] at the second load, which is
+   at most [submitted] now *)
+Theorem reach_samples cap handler evs s rs q sub :
+  run true (init_q cap handler) evs = Some (s, rs) -> In (q, sub) (q_samples s) ->
+  q <= sub /\ sub <= q_submitted s.
+Proof. intros R. apply (I_samples s (inv_reach _ _ _ _ _ R)). Qed.
+
+(* the second load of queued(): exact integer arithmetic, the subtraction is guarded *)
+Lemma sampleb_spec fixed s s' r : step fixed s ESampleB = Some (s', r) ->
+  exists sub q, q_samp s = Some sub /\ q_samples s' = q_samples s ++ [(q, q_submitted s)] /\
+    q_samp s' = None /\
+    ((q_drained s < sub /\ q + q_drained s = sub) \/ (sub <= q_drained s /\ q = 0)).
+Proof.
+  cbn [step]. destruct (q_samp s) as [sub|]; [|discriminate]. intro H. injection H as <- _.
+  exists sub. eexists. prj. split; [reflexivity|]. split; [reflexivity|]. split; [reflexivity|].
+  destruct (q_drained s <? sub) eqn:E.
+  - apply Nat.ltb_lt in E. left. lia.
+  - apply Nat.ltb_ge in E. right. lia.
+Qed.
+
+Lemma samplea_spec fixed s : exists s', step fixed s ESampleA = Some (s', RNone) /\
+  q_samp s' = Some (q_submitted s) /\ q_samples s' = q_samples s.
+Proof. eexists. cbn [step]. split; [reflexivity|]. prj. auto. Qed.
+
+(* the handler log *)
+Theorem reach_handled cap handler evs s rs :
+  run true (init_q cap handler) evs = Some (s, rs) ->
+  q_handled s = if handler then errs (q_delivered s) else [].
+Proof.
+  intro R. destruct (run_cfg _ _ _ _ _ R) as [_ Eh]. cbn in Eh.
+  rewrite (I_handled s (inv_reach _ _ _ _ _ R)), Eh. reflexivity.
+Qed.
+
+Theorem reach_panics cap handler evs s rs :
+  run true (init_q cap handler) evs = Some (s, rs) -> q_panics s = npanics (q_delivered s).
+Proof. intro R. apply (I_panics s (inv_reach _ _ _ _ _ R)). Qed.
+
+(* the result of try_send depends only on capacity, channel length and "worker waits in recv" *)
+Theorem trysend_result fixed s1 s2 s1' s2' r1 r2 :
+  q_cap s1 = q_cap s2 -> length (q_chan s1) = length (q_chan s2) ->
+  is_recv (q_wk s1) = is_recv (q_wk s2) ->
+  step fixed s1 ETrySend = Some (s1', r1) -> step fixed s2 ETrySend = Some (s2', r2) -> r1 = r2.
+Proof.
+  intros Ec El Ew H1 H2.
+  assert (Er : room s1 = room s2) by (rewrite !room_spec, Ec, El, Ew; reflexivity).
+  pose proof (trysend_live _ _ _ _ H1) as L1. pose proof (trysend_live _ _ _ _ H2) as L2.
+  destruct (trysend_spec fixed s1 L1) as [x1 X1]. destruct (trysend_spec fixed s2 L2) as [x2 X2].
+  rewrite H1 in X1. rewrite H2 in X2. injection X1 as _ ->. injection X2 as _ ->.
+  rewrite Er. reflexivity.
+Qed.
+
+Theorem trysend_iff_room fixed s s' r : step fixed s ETrySend = Some (s', r) ->
+  (r = ROk <-> room s = true) /\ (r = RFull <-> room s = false) /\ r <> RNone /\
+  q_delivered s' = q_delivered s /\ q_handled s' = q_handled s /\ q_panics s' = q_panics s.
+Proof.
+  intro H. pose proof (trysend_live _ _ _ _ H) as L.
+  destruct (trysend_spec fixed s L) as [x X]. rewrite H in X. injection X as _ ->.
+  destruct (step_actor _ _ _ _ _ H (fun f => f)) as (A & B & C).
+  destruct (room s); repeat split; try congruence; try discriminate.
+Qed.
